@@ -177,7 +177,10 @@ func c08Announce(r *R) {
 		}
 	}
 	// transport hooks: ErrPause ⇒ pause, other error ⇒ terminate
-	for _, h := range []struct{ hook, cb, pause string; errIdx string }{
+	for _, h := range []struct {
+		hook, cb, pause string
+		errIdx          string
+	}{
 		{"gsIncomingBlockHook", "OnDataReceived", "(github.com/ipfs/go-graphsync.IncomingBlockHookActions).PauseRequest", ""},
 		{"gsOutgoingBlockHook", "OnDataQueued", "(github.com/ipfs/go-graphsync.OutgoingBlockHookActions).PauseResponse", "#1"},
 	} {
